@@ -328,6 +328,7 @@ def parseAreaComp (sph : Bool) (corners : List (P2 R)) (model : String) (c : Cur
     let mn ← pmLift (c.getNumVec "min value")
     let mx ← pmLift (c.getNumVec "max value")
     let op ← pmLift c.getOp
+    if comps.length != mn.length || comps.length != mx.length then pmErr .length
     return .random rng op comps mn mx
   | _ => pmErr .unsupported
 
